@@ -52,6 +52,7 @@ func runC01(c *Config, r *Report) {
 	c01R22(ic, r)
 	c01R23to26(ic, r)
 	c01R27(ic, r)
+	c01R28and29(ic, r)
 	c01R3(ic, r)
 	c01R4(ic, r)
 	// R01.5 shared with C02
